@@ -471,27 +471,6 @@ theorem exact_of_inv {pt : PTree} {es : List Endpoint} (hinv : Inv pt es) (us : 
     simp
   · simp at hf
 
-theorem most_specific_of_inv {pt : PTree} {es : List Endpoint} (hinv : Inv pt es) (us : List Part)
-    (hfl : boundaryMix es us = false)
-    {q : Pattern} {i : Nat} (hl : (lookupParts pt.tree us).value = some i) (hq : (q, some i) ∈ pt.tree)
-    {e : Endpoint} (hep : e.parts = q) : mostSpecificFor es us e = true := by
-  have hmatch : (lookupParts pt.tree us).isMatch = true := lookGo_value_isMatch us pt.tree none [] [] i hl
-  obtain ⟨q', hq', _, hall⟩ := lookupParts_most_specific' pt.tree us hinv.wl (tree_aligned hinv hfl) hmatch
-  rw [hl] at hq'
-  have := hinv.entry_uniq hq hq'
-  subst this
-  unfold mostSpecificFor
-  rw [List.all_eq_true]
-  intro e' he'
-  cases hm : «matches» e'.parts us with
-  | false => simp
-  | true =>
-    have hlax := lax_of_matches _ _ hm
-    obtain ⟨j, hj⟩ := hinv.cov he' (wildLast_of_matchesLax _ _ hlax)
-    have := hall _ hj (by simp) hlax
-    rw [hep]
-    simpa using this
-
 theorem filter_map_isEmpty {α β : Type} (l : List α) (p : α → Bool) (f : α → β) :
     ((l.filter p).map f).isEmpty = !l.any p := by
   induction l with
